@@ -357,6 +357,7 @@ def run(report, p):
 
     # ---- rules shared with other properties (same mechanism, same rule, reported under every property it can break)
     include_rules(report, p, 'c04', ['R4.2'], 'verify -pl finds the reference digest of a file through the `original` lookup: a flattened manifest mixes original and verified entries in format order, so the lookup must look at every entry of the record')
+    include_rules(report, p, 'c12', ['R12.11'], 'verify -pl takes the ignore patterns from the packing list: a flattened manifest (which never has a root hash) written without <ignore> makes it report the files the history ignores as new')
     include_rules(report, p, 'c12', ['R12.10'], 'the patterns given to flatten go into the packing list and from there into verify -pl: a pattern string taken apart into characters (`*`) makes verify -pl ignore the whole tree')
     include_rules(report, p, 'c03', ['R3.11'], 'flatten and verify -pl log every record they handle')
     include_rules(report, p, 'c11', ['R11.m'], 'first-wins per (path, format) rests on the session keeping one entry per format')
